@@ -132,4 +132,37 @@ PROPS = {
         "assumptions": COMMON_ASSUME + ["process-crash model as C03"],
         "outside": "more than 3 crash epochs, compaction inside the recovered session (covered for single sessions by C05)",
     },
+    "C06": {
+        "quick": [
+            {"harness": "H_C06_q", "cases": list(range(6)), "scale": SC},
+            {"harness": "H_C06_sw", "cases": list(range(6)), "scale": SC},
+        ],
+        "thorough": [
+            {"harness": "H_C06_t", "cases": list(range(6)), "scale": SC},
+            {"harness": "H_C06_sw", "cases": list(range(6)), "scale": SC},
+            {"harness": "H_C06_mid", "cases": list(range(6)), "scale": SC},
+            {"harness": "H_C06_swmid", "cases": list(range(6)), "scale": SC},
+        ],
+        "covers": {"quick": ["C06.done", "C06.durability-point", "C06.rolled-over", "power.all-unsynced-lost", "power.one-file-loses-suffix", "power.nothing-lost"]},
+        "bounds": {"quick": "2 keys; prefix 2 puts then 3 symbolic steps from {put, delete, compact, sync} (explicit-Sync mode) / 2 steps in sync-after-write mode; power failure between any two operations; surviving prefixes: all kept | all unsynced data lost | one symbolic segment file keeps a symbolic proper prefix of its pending writes/truncations (last write cut at a 512-aligned offset) while the others keep everything",
+                   "thorough": "4 steps; additionally power failure at every mutating FS call inside an operation"},
+        "assumptions": COMMON_ASSUME + ["power-loss model of the property implemented by a harness FileSystem around fs.Mem: directory operations durable and ordered, file data/length volatile until File.Sync"],
+        "outside": "combinations where two or more files each lose a different proper suffix, more than 2 keys, histories longer than the bound, real device caches",
+    },
+    "C09": {
+        "quick": [
+            {"harness": "H_C09_q", "cases": list(range(7)), "scale": SC},
+            {"harness": "H_C09_sw", "cases": list(range(7)), "scale": SC},
+        ],
+        "thorough": [
+            {"harness": "H_C09_t", "cases": list(range(7)), "scale": SC},
+            {"harness": "H_C09_sw", "cases": list(range(7)), "scale": SC},
+            {"harness": "H_C09_mid", "cases": list(range(7)), "scale": SC},
+        ],
+        "covers": {"quick": ["C09.done", "power.nothing-lost"]},
+        "bounds": {"quick": "2 keys; prefix 2 puts + 1 symbolic step from {put, delete, compact, sync, close+open}, Close, power failure right after Close; surviving prefixes as C06 but over all files (index, metadata, segments); both sync modes",
+                   "thorough": "2 steps; failure also at every mutating FS call of the next Open"},
+        "assumptions": COMMON_ASSUME + ["power-loss model as C06"],
+        "outside": "as C06",
+    },
 }
